@@ -33,6 +33,8 @@ def check(ck):
     r12_3(ck)
     r12_4(ck)
     r12_5(ck)
+    from . import c15
+    c15.r15_9(ck, rule='R12.6')
 
 
 def r12_1(ck):
@@ -180,6 +182,20 @@ def r12_3(ck):
                                'self.global_time' % A.unparse(v), d)
     ck.require(time_ok, 'R12.3', f, f.node.name,
                "the row carries 'time': self.global_time", None)
+    # the engine's time wins over a store variable that is named 'time'
+    for d in ast.walk(f.node):
+        if isinstance(d, ast.Dict) and None in d.keys:
+            keys = [k.value if isinstance(k, ast.Constant) else None
+                    for k in d.keys]
+            if 'time' in keys:
+                unpack = [i for i, k in enumerate(d.keys) if k is None]
+                ok = keys.index('time') > max(unpack)
+                ck.require(ok, 'R12.3', f, d,
+                           "'time' is written after the emitted data (the "
+                           "engine's time wins)",
+                           "the emitted data is unpacked AFTER 'time': an "
+                           "emitted top-level variable called 'time' "
+                           "replaces the row's time key", d)
     ok = "'table': 'history'" in txt
     ck.require(ok, 'R12.3', f, f.node.name, "rows go to table 'history'",
                "history rows are not emitted to table 'history'")
